@@ -234,6 +234,13 @@ def check_signals(cfg, events, before, after):
     return True, ""
 
 
+def _zw_row(ref):
+    """classification aid only (never used by an oracle): does some display row consist of zero-width
+    characters only?  urwid leaves such characters out of its layout (see the final report)."""
+    rows = ref.rows()
+    return bool(rows) and any(r.cells and all(w == 0 for (_i, _x, w) in r.cells) for r in rows)
+
+
 def apply_and_check(w, ref, cfg, ev, log):
     """Apply one event to the real widget and to the reference; evaluate every clause.
     Returns (verdicts: {clause: (ok, why, nontrivial)}, alive: bool, obs: dict)."""
@@ -363,6 +370,7 @@ def apply_and_check(w, ref, cfg, ev, log):
     if "no-exception" not in v:
         v["no-exception"] = (True, "", True)
     obs["ref_before"] = [repr(ref_before[0]), ref_before[1], repr(ref_before[2])]
+    obs["zero_width_row"] = _zw_row(ref)
     return v, alive, obs
 
 
@@ -410,8 +418,8 @@ def evaluate(cfg, text0, pos0, path, ev, ref=None):
             v["no-exception"] = (True, "", True)
         except Exception as e:  # noqa: BLE001
             v["no-exception"] = (False, f"render/cursor query raised {type(e).__name__}: {e}"[:300], True)
-            return v, False, {}, ref
-        return v, True, {}, ref
+            return v, False, {"zero_width_row": _zw_row(ref)}, ref
+        return v, True, {"zero_width_row": _zw_row(ref)}, ref
     v, alive, obs = apply_and_check(w, ref, cfg, ev, log)
     return v, alive, obs, ref
 
@@ -453,7 +461,7 @@ def _why_class(clause, why, ev):
 def record(tally, cfg, text0, pos0, path, ev, verdicts, obs):
     for clause, (ok, why, nt) in verdicts.items():
         def detail(clause=clause, why=why):
-            return {"clause": clause, "why": why, "cfg": cfg, "text0": text0, "pos0": pos0, "path": list(path), "event": ev, "obs": obs, "class": _why_class(clause, why, ev)}
+            return {"clause": clause, "why": why, "cfg": cfg, "text0": text0, "pos0": pos0, "path": list(path), "event": ev, "obs": obs, "class": ("zero-width-row|" if obs.get("zero_width_row") else "") + _why_class(clause, why, ev)}
 
         tally.case(clause, ok, nt, detail, sample={"cfg": cfg, "text0": text0, "pos0": pos0, "path": list(path), "event": ev})
 
